@@ -33,6 +33,95 @@ def check(ctx: Ctx) -> None:
     r5(ctx)
     kernel_lock_preferred(ctx, "C19.R6")
     success_means_locked(ctx)
+    owner_token_unique(ctx)
+    lock_dir_private(ctx)
+    lock_identity_canonical(ctx)
+
+
+def lock_dir_private(ctx: Ctx, rid: str = "C19.R9") -> None:
+    ctx.rule(rid, "the lock directory belongs to the lock: its name appears in the package only as the argument of create_lock - "
+             "no sweep, listing, cleanup or maintenance code addresses it (unlinking a flock()ed file lets the next acquirer lock "
+             "a fresh inode while the old holder still holds the old one: two holders)", 1)
+    mm_init = ctx.fn("metadata_manager.MetadataManager.__init__")
+    cl = [n for n in ctx.cfg(mm_init).calls() if isinstance(n.ast, ast.Call) and isinstance(n.ast.func, ast.Attribute) and n.ast.func.attr == "create_lock"]
+    lock_path = ctx.prog.const_str(cl[0].ast.args[0], mm_init.module, mm_init) if cl and cl[0].ast.args else None  # type: ignore[union-attr]
+    if not lock_path or "/" not in lock_path:
+        raise AnalysisError("the commit lock's path is no longer a constant '<dir>/<name>' handed to create_lock")
+    lock_dir = lock_path.strip("/").split("/")[0]
+    n_ok = 0
+    for m in sorted(ctx.prog.modules.values(), key=lambda x: x.name):
+        allowed = set()
+        for x in ast.walk(m.tree):
+            if isinstance(x, ast.Call) and isinstance(x.func, ast.Attribute) and x.func.attr == "create_lock":
+                allowed |= {id(c) for a in x.args for c in ast.walk(a)}
+        for x in ast.walk(m.tree):
+            if isinstance(x, ast.Constant) and isinstance(x.value, str) and x.value.strip("/").split("/")[0] == lock_dir \
+                    and " " not in x.value.strip():
+                ok = id(x) in allowed
+                n_ok += ok
+                ctx.ob(rid, None, "lock directory named only where the lock is created", None, ok,
+                       f"`{x.value}`" + ("" if ok else ": code outside create_lock addresses the lock directory - whatever it lists, "
+                                         "ages or deletes there is the live commit lock of some writer"),
+                       text=f"{m.short}:{x.value}", file=m.relpath, line=x.lineno)
+    if n_ok == 0:
+        raise AnalysisError("create_lock argument not found as a constant")
+
+
+def lock_identity_canonical(ctx: Ctx, rid: str = "C19.R10") -> None:
+    ctx.rule(rid, "one table, one lock: every lock provider a backend's create_lock returns is built on the backend's canonical "
+             "resolution of the given path (_resolve_path: realpath-based / _get_s3_key) - two spellings of one table (symlink, "
+             "relative path) must contend for the same lock file / object", 2)
+    for q, resolver in (("storage_backend.LocalStorageBackend.create_lock", "_resolve_path"),
+                        ("storage_backend.S3StorageBackend.create_lock", "_get_s3_key")):
+        f = ctx.fn(q)
+        g = ctx.cfg(f)
+        sl = ctx.slicer(f)
+        pname = next((p.name for p in f.params if p.name not in ("self", "timeout")), "path")
+        ctors = [n for n in g.calls() if n.id in g.reachable() and n.callee is not None and n.callee.kind == "ctor" and n.callee.cls is not None
+                 and n.callee.cls.name.endswith("LockProvider")]
+        if not ctors:
+            raise AnalysisError(f"no lock provider constructed in {q}")
+        for c in ctors:
+            args = list(c.ast.args) + [k.value for k in c.ast.keywords]  # type: ignore[union-attr]
+            hit = False
+            for a in args:
+                org = sl.origins(a, c.id)
+                if any(isinstance(x, ast.Call) and isinstance(x.func, ast.Attribute) and x.func.attr == resolver and x.args
+                       and pname in names_in(x.args[0]) for x in org["calls"]):
+                    hit = True
+            ctx.ob(rid, f, f"lock provider built on {resolver}({pname})", c, hit,
+                   "the lock's identity is the canonical location" if hit else
+                   f"the lock's location does not come from {resolver}({pname}): writers reaching the table through different path "
+                   "spellings (or configurations) lock different files and commit concurrently")
+
+
+def owner_token_unique(ctx: Ctx, rid: str = "C19.R8") -> None:
+    ctx.rule(rid, "the S3 lock's owner token is unique per provider INSTANCE: every store to `.lock_id` is made in a lock "
+             "provider's own __init__ and its value is a uuid4() drawn there (is_held / release / renew compare the lock object's "
+             "content or ETag with it: two handles sharing a token each believe they hold the other's lock)", 1)
+    n = 0
+    for f in sorted(ctx.prog.functions.values(), key=lambda x: x.qname):
+        if isinstance(f.node, ast.Lambda):
+            continue
+        g = ctx.cfg(f)
+        for st in g.nodes:
+            if st.kind != "stmt" or not isinstance(st.ast, (ast.Assign, ast.AugAssign)) or st.id not in g.reachable():
+                continue
+            tgs = st.ast.targets if isinstance(st.ast, ast.Assign) else [st.ast.target]
+            for t in tgs:
+                if not (isinstance(t, ast.Attribute) and t.attr == "lock_id"):
+                    continue
+                n += 1
+                in_init = f.name == "__init__" and f.cls is not None and isinstance(t.value, ast.Name) and t.value.id == "self"
+                org = ctx.slicer(f).origins(st.ast.value, st.id)
+                own_uuid = any(isinstance(c, ast.Call) and (dotted(c.func) or "").endswith("uuid4") for c in org["calls"])
+                ctx.ob(rid, f, "lock owner token is a per-instance uuid4", st, in_init and own_uuid,
+                       "drawn by uuid4() in the provider's constructor" if in_init and own_uuid else
+                       ("the token is not a uuid4() drawn in the provider's own constructor (host / pid / a process-wide memo): "
+                        "handles of one process share it - after a takeover the superseded handle's is_held() stays True, its commit "
+                        "passes the fence and its release() deletes the new holder's lock"))
+    if n == 0:
+        raise AnalysisError("no store to .lock_id found (owner token vanished)")
 
 
 def success_means_locked(ctx: Ctx, rid: str = "C19.R7") -> None:
